@@ -85,6 +85,29 @@ def entry_gauge_rule(chk, src):
     return n
 
 
+
+def result_normalised_rule(chk, src):
+    """optimize_mps returns normalised, canonical states for one root and for several roots alike (the per-root truncation of the two-site update discards weight)"""
+    fi = src.func(GS, "optimize_mps")
+    chains = {}
+    for st in ast.walk(fi.node):
+        if isinstance(st, ast.Assign) and unparse(st.targets[0]) == "res_mps":
+            v = st.value.elt if isinstance(st.value, ast.ListComp) else st.value
+            names, args, cur = [], [], v
+            while isinstance(cur, ast.Call) and isinstance(cur.func, ast.Attribute):
+                names.append(cur.func.attr)
+                args.append([unparse(a) for a in cur.args])
+                cur = cur.func.value
+            if names:
+                chains["several roots" if isinstance(st.value, ast.ListComp) else "one root"] = list(zip(reversed(names), reversed(args)))
+    want = [("normalize", ["'mps_only'"]), ("ensure_left_canonical", []), ("canonicalise", [])]
+    for k in ("one root", "several roots"):
+        got = chains.get(k)
+        chk.ob("result-normalised", f"optimize_mps result [{k}]", got == want, fi.where, got, want, line=fi.node.lineno,
+               detail=f"the state(s) returned for {k} must be normalised before they are re-canonicalised: after a truncating two-site update an eigenvector of the local problem "
+                      "is no longer a unit vector of the full space, so <psi|H|psi> of the returned state differs from the reported energy")
+
+
 def run(chk):
     src = chk.src
     chk.explanation = (
@@ -100,6 +123,8 @@ def run(chk):
     chk.rule("heff-network", "effective-Hamiltonian kernel == canonical network (per configuration)", 22)
     chk.rule("inverse-sibling", "direct matrix, preconditioner diagonal and matrix-vector product are each multiplied by `inverse` exactly once", 3)
     chk.rule("mask-sibling", "iterative solver: trial vector unpacked and result packed with the same sector mask", 2)
+    chk.rule("result-normalised", "returned states are normalised and canonical in the single-root and the several-roots branch", 2)
+    result_normalised_rule(chk, src)
     chk.rule("entry-gauge", "optimize_mps orthonormalises its input before building environments, on every path, and builds the environments of the matching side", 8)
     entry_gauge_rule(chk, src)
     chk.rule("arg-order", "kernels are called with same-named arguments in parameter order", 4)
